@@ -118,7 +118,7 @@ func c12Op(g *gen.G, typ byte) drv.Op {
 	}
 	userprops := func() drv.Op {
 		n := 1 + t.Int(3)
-		o := drv.Op{Kind: "userprops"}
+		o := drv.Op{Kind: "userprops", Flag: t.Bool(1, 3)} // Flag: through the exported field
 		for i := 0; i < n; i++ {
 			o.KV = append(o.KV, [2][]byte{g.Str(g.Len1()), g.Str(g.Len())})
 		}
